@@ -184,6 +184,15 @@ func runConc(e Entry, rng *rand.Rand, histories, ops int) {
 			all = append(all, snapOf(-1, m))
 		}
 		count("concurrent_operations", int64(len(all)))
+		if e.Resets {
+			// records must equal the calls since the last reset: a reset made now, with nothing in flight, leaves none
+			in.mock.MethodByName("ResetCalls").Call(nil)
+			for _, m := range in.methods {
+				if n := in.calls(m.Name).Call(nil)[0].Len(); n != 0 {
+					violation("C05", e.Name, m.Name, fmt.Sprintf("%d records of %s survive a ResetCalls() made after all calls and resets had returned", n, m.Name), nil)
+				}
+			}
+		}
 		for _, m := range hot {
 			var evs []*cEvent
 			for _, ev := range all {
